@@ -25,16 +25,19 @@ type target struct {
 	Recv  string
 	Func  string
 	Steps []string // callee names (last selector element, or "recv.sel" for disambiguation)
+	Pre   bool     // also a point in front of every step (schedule points: another writer is started there)
 }
 
 var targets = []target{
-	{"internal/server/dataset.go", "Dataset", "StoreEntities", []string{"StoreEntitiesWithTransaction", "commitIDTxn", "txn.Commit", "updateDataset"}},
-	{"internal/server/store.go", "Store", "ExecuteTransaction", []string{"StoreEntitiesWithTransaction", "commitIDTxn", "txn.Commit", "updateDataset"}},
-	{"internal/server/dsmanager.go", "DsManager", "CreateDataset", []string{"storeValue", "storeEntity"}},
-	{"internal/server/dsmanager.go", "DsManager", "UpdateDataset", []string{"moveValue", "storeEntity"}},
-	{"internal/server/dsmanager.go", "DsManager", "DeleteDataset", []string{"deleteValue", "StoreObject", "deleteValueAndStoreObject", "storeEntity"}},
+	{"internal/server/dataset.go", "Dataset", "StoreEntities", []string{"StoreEntitiesWithTransaction", "commitIDTxn", "txn.Commit", "updateDataset"}, false},
+	{"internal/server/store.go", "Store", "ExecuteTransaction", []string{"StoreEntitiesWithTransaction", "commitIDTxn", "txn.Commit", "updateDataset"}, false},
+	{"internal/server/dsmanager.go", "DsManager", "CreateDataset", []string{"storeValue", "storeEntity"}, false},
+	{"internal/server/dsmanager.go", "DsManager", "UpdateDataset", []string{"moveValue", "storeEntity"}, false},
+	{"internal/server/dsmanager.go", "DsManager", "DeleteDataset", []string{"deleteValue", "StoreObject", "deleteValueAndStoreObject", "storeEntity"}, false},
 	// compaction: every flush is one badger transaction (C12: kills between flushes)
-	{"internal/service/dataset/compact.go", "", "flushDeletes", []string{"Update"}},
+	{"internal/service/dataset/compact.go", "", "flushDeletes", []string{"Update"}, false},
+	// the rolling id transaction shared by all writers: schedule points around its commit (C05/C13)
+	{"internal/server/store.go", "Store", "commitIDTxn", []string{"Commit"}, true},
 }
 
 var fset = token.NewFileSet()
@@ -104,7 +107,6 @@ func instrument(fd *ast.FuncDecl, t target) []string {
 					}
 				}
 			}
-			out = append(out, s)
 			var callee string
 			switch x := s.(type) {
 			case *ast.AssignStmt, *ast.ExprStmt:
@@ -114,6 +116,12 @@ func instrument(fd *ast.FuncDecl, t target) []string {
 					callee = stepOf(x.Init, t.Steps) // `if err := step(); err != nil { return }`
 				}
 			}
+			if callee != "" && t.Pre {
+				name := fmt.Sprintf("%s:pre%d:%s", t.Func, k+1, callee)
+				names = append(names, name)
+				out = append(out, point(name))
+			}
+			out = append(out, s)
 			if callee == "" {
 				continue
 			}
